@@ -196,6 +196,11 @@ func (in *c14Inst) resolveSets() {
 func c14Gen2(t *rapid.T) c14Case {
 	c := c14GenBase(t)
 	if rapid.IntRange(0, 2).Draw(t, "withSets") != 0 {
+		// (sets are evaluated over the rules reachable from an input with end-of-input: the two
+		// features are kept apart)
+		if rapid.IntRange(0, 2).Draw(t, "noeoi") == 0 {
+			c.NoEoi = []bool{true}
+		}
 		return c
 	}
 	draw := func(target int) tPart {
